@@ -177,3 +177,20 @@ Qed.
 (* doc["k"] is the root table's lookup *)
 Lemma doc_index_root t k : doc_index (ITable t) k = table_get (t_items t) k.
 Proof. reflexivity. Qed.
+
+(* ---- len / is_empty: what the table-like view counts is what its iteration shows ------------------------------------ *)
+Lemma table_len_no_placeholder items :
+  Forall (fun kv => item_is_none (snd kv) = false) items -> table_len items = List.length items.
+Proof.
+  unfold table_len. induction items as [|kv tl IH]; intro H; [reflexivity|].
+  inversion H as [|? ? Hx Htl]; subst. cbn [filter]. rewrite Hx. cbn [negb List.length]. f_equal. apply IH. exact Htl.
+Qed.
+Lemma tablelike_len_spec it :
+  tablelike_len it = match it with
+                     | ITable t => Some (table_len (t_items t))
+                     | IValue (VInline items _ _ _ _ _) => Some (inline_len items)
+                     | _ => None
+                     end.
+Proof. destruct it as [|v|t|ts sp]; try reflexivity. destruct v; reflexivity. Qed.
+Lemma tablelike_len_iff it : is_some (tablelike_len it) = item_is_table_like it.
+Proof. destruct it as [|v|t|ts sp]; try reflexivity. destruct v; reflexivity. Qed.
